@@ -14,6 +14,40 @@ use std::collections::HashMap;
 
 pub const POOL_DIR: &str = "/verif/.cache/pool";
 
+/// The fixture pool (key material, registries, tails files) is written ONLY by `bin/setup` (`vh warm`, `VH_POOL_WRITE=1`), from the tree
+/// as it is then. A check never writes into it: a tree under test that cannot use the pool (issuance broken, a deserialiser changed)
+/// must not get to regenerate it with its own code and leave that behind for later runs. What a check finds missing it makes for
+/// itself in a scratch directory that disappears with the process.
+pub fn pool_writable() -> bool {
+    std::env::var("VH_POOL_WRITE").map(|v| v == "1").unwrap_or(false)
+}
+
+/// where new fixture files go: the pool when it may be written, else a per-process scratch directory
+pub fn fixture_dir() -> String {
+    if pool_writable() {
+        POOL_DIR.to_string()
+    } else {
+        let d = format!("/verif/.cache/scratch-pool-{}", std::process::id());
+        std::fs::create_dir_all(&d).ok();
+        d
+    }
+}
+
+/// remove this process's scratch fixtures (called at exit of `vh`)
+pub fn cleanup_scratch() {
+    let d = format!("/verif/.cache/scratch-pool-{}", std::process::id());
+    std::fs::remove_dir_all(&d).ok();
+}
+
+/// fingerprint of a definition's public key material: sized registries are only valid for the key they were made with
+pub fn fingerprint(d: &Def) -> String {
+    use sha2::Digest;
+    let j = serde_json::to_string(&d.cd).unwrap_or_default();
+    let mut h = sha2::Sha256::new();
+    h.update(j.as_bytes());
+    h.finalize().iter().map(|b| format!("{b:02x}")).collect()
+}
+
 #[derive(Serialize, Deserialize)]
 pub struct Reg {
     pub rid: RevocationRegistryDefinitionId,
@@ -81,7 +115,7 @@ fn make_def(spec: &DefSpec) -> Def {
     .unwrap();
     let mut regs = vec![];
     for (rid, size) in spec.regs {
-        let tails_dir = format!("{POOL_DIR}/tails");
+        let tails_dir = format!("{}/tails", fixture_dir());
         std::fs::create_dir_all(&tails_dir).unwrap();
         let mut tw = TailsFileWriter::new(Some(tails_dir));
         let (def, def_priv) = issuer::create_revocation_registry_def(&cd, cid.clone(), "r", RegistryType::CL_ACCUM, *size, &mut tw).unwrap();
@@ -115,23 +149,29 @@ impl World {
         World { defs }
     }
 
-    /// load the cached pool, regenerate it when absent, stale or unusable on the current tree
+    /// load the cached pool. Absent or not matching the specification: generate one — into the cache when `bin/setup` runs
+    /// (`VH_POOL_WRITE=1`; there also when the smoke flow fails: the pool is stale), else for this process only. A pool that is there is
+    /// used as it is by a check, whether or not the tree under test can work with it: honest flows that then fail are findings.
     pub fn load() -> World {
         let path = format!("{POOL_DIR}/pool-v2.json");
         if let Ok(txt) = std::fs::read_to_string(&path) {
             if let Ok(defs) = serde_json::from_str::<Vec<Def>>(&txt) {
                 let w = World { defs };
-                if w.defs.len() == SPECS.len() && w.defs.iter().zip(SPECS).all(|(d, s)| d.key == s.key && d.cid.0 == s.cid && d.regs.len() == s.regs.len()) && w.smoke() {
+                let shaped = w.defs.len() == SPECS.len() && w.defs.iter().zip(SPECS).all(|(d, s)| d.key == s.key && d.cid.0 == s.cid && d.regs.len() == s.regs.len());
+                if shaped && (!pool_writable() || w.smoke()) {
                     return w;
                 }
-                eprintln!("fixture pool stale; regenerating");
+                eprintln!("fixture pool stale");
             }
         }
-        std::fs::create_dir_all(POOL_DIR).unwrap();
+        eprintln!("generating fixture pool ({})", if pool_writable() { "cached" } else { "for this process only" });
+        std::fs::create_dir_all(fixture_dir()).unwrap();
         let handles: Vec<_> = SPECS.iter().map(|s| { let s = s.clone(); std::thread::spawn(move || make_def(&s)) }).collect();
         let defs: Vec<Def> = handles.into_iter().map(|h| h.join().expect("keygen")).collect();
         let w = World { defs };
-        std::fs::write(&path, serde_json::to_string(&w.defs).unwrap()).unwrap();
+        if pool_writable() {
+            std::fs::write(&path, serde_json::to_string(&w.defs).unwrap()).unwrap();
+        }
         w
     }
 
